@@ -57,6 +57,7 @@ type c12Fam struct {
 type c12In struct {
 	Route   string   `json:"route"` // prod | exch
 	Cold    bool     `json:"cold"`
+	Cancel  bool     `json:"cancel,omitempty"` // every presentation is a CANCEL continuation (vgi_rpc cancel key set, empty-schema batch)
 	KeyLen  int      `json:"keylen"`
 	Turns   int      `json:"turns"`
 	Foreign []int    `json:"foreign,omitempty"` // key lengths of foreign servers
@@ -133,7 +134,7 @@ func (s *c12Srv) init(method string, turns int) (cur, call string) {
 	for i := range ts {
 		ts[i] = TurnScript{Act: "emit", Value: int64(i + 1)}
 	}
-	s.sf.PushStream(StreamScript{Turns: ts})
+	s.sf.PushStream(StreamScript{Turns: ts, Canceller: true}) // states implement StreamCanceller: OnCancel is observable
 	r := DoHTTP(s.h, "POST", "/"+method+"/init", ReqBytes(PIntBatch(1), StdMeta(method, "", "")), nil)
 	c, k := vgirpc.FindStreamTokens(r.Body)
 	if r.Status != 200 || c == nil || k == nil {
@@ -426,7 +427,7 @@ func c12Run(in c12In) CaseOut {
 	other := c12Other(in.Route)
 	now := time.Now().Unix()
 
-	tagset := map[string]bool{"route-" + in.Route: true, fmt.Sprintf("cold-%v", in.Cold): true, fmt.Sprintf("keylen-%d", in.KeyLen): true}
+	tagset := map[string]bool{"route-" + in.Route: true, fmt.Sprintf("cold-%v", in.Cold): true, fmt.Sprintf("keylen-%d", in.KeyLen): true, fmt.Sprintf("cancel-%v", in.Cancel): true}
 	// ---- reference tokens ---------------------------------------------------
 	var refs []c12Ref
 	add := func(text string, keyClass int, slot, pay string) {
@@ -454,7 +455,7 @@ func c12Run(in c12In) CaseOut {
 		}
 		return string(b)
 	}
-	st := &ScriptState{SID: srv.sf.ID, Turns: []TurnScript{{Act: "emit", Value: 1}}}
+	st := &ScriptStateC{ScriptState{SID: srv.sf.ID, Turns: []TurnScript{{Act: "emit", Value: 1}}}}
 	curAad, _ := vgirpc.VerifC12Aads(nil)
 	verCur, _ := vgirpc.VerifC12Versions()
 	tagRaw, tagZstd := vgirpc.VerifC12CodecTags()
@@ -535,7 +536,10 @@ func c12Run(in c12In) CaseOut {
 			keys, vals = append(keys, vgirpc.MetaCallState), append(vals, call)
 		}
 		var b arrow.RecordBatch
-		if in.Route == "exch" {
+		if in.Cancel {
+			keys, vals = append(keys, vgirpc.MetaCancel), append(vals, "true")
+		}
+		if in.Route == "exch" && !in.Cancel {
 			b = PIntBatch(1)
 		} else {
 			b = array.NewRecordBatch(arrow.NewSchema(nil, nil), nil, 0)
@@ -584,6 +588,8 @@ func c12Run(in c12In) CaseOut {
 				evs = append(evs, "2")
 			case e == "E":
 				evs = append(evs, "4")
+			case strings.HasPrefix(e, "cancel@"):
+				evs = append(evs, "5")
 			case strings.HasPrefix(e, "produce#") || strings.HasPrefix(e, "exchange#"):
 				evs = append(evs, "3")
 			default:
@@ -641,8 +647,8 @@ func c12Run(in c12In) CaseOut {
 		coqFams[i] = fams[i].coq()
 	}
 	warm := List([]string{Pair("0", c12Route(in.Route)), Pair("1", c12Route(in.Route)), Pair("2", c12Route(other))})
-	input := fmt.Sprintf("{| C12.i_route := %s; C12.i_cold := %s; C12.i_refs := %s; C12.i_warm := %s; C12.i_fams := %s |}",
-		c12Route(in.Route), Bool(in.Cold), List(coqRefs), warm, List(coqFams))
+	input := fmt.Sprintf("{| C12.i_route := %s; C12.i_cold := %s; C12.i_cancel := %s; C12.i_refs := %s; C12.i_warm := %s; C12.i_fams := %s |}",
+		c12Route(in.Route), Bool(in.Cold), Bool(in.Cancel), List(coqRefs), warm, List(coqFams))
 	// distinct observations, distinct runs of eight of them, the sequence of runs
 	pack := func(wide bool) (blocks []string, stream []byte, ok bool) {
 		put := func(b []byte, v int) []byte {
@@ -756,6 +762,14 @@ func c12Gen(r *rand.Rand, n int, tier string) []c12In {
 	// 1. boundary: every single presentation kind, both routes, cache on / off
 	out = append(out, c12In{Route: "prod", Cold: false, KeyLen: 32, Turns: 1, Foreign: []int{16, 1048}, Fams: c12Singles(2), Note: "singles"},
 		c12In{Route: "exch", Cold: true, KeyLen: 40, Turns: 1, Foreign: []int{1032}, Fams: c12Singles(1), Note: "singles"})
+	// 1b. the same presentations as CANCEL continuations: a cancel must authenticate both tokens like any
+	// other continuation (cache off: the call token is consulted; cache on: hit, and miss for the second server's pair)
+	out = append(out, c12In{Route: "prod", Cold: true, Cancel: true, KeyLen: 24, Turns: 1, Foreign: []int{64, 1024}, Fams: c12Singles(2), Note: "singles-cancel"},
+		c12In{Route: "exch", Cold: false, Cancel: true, KeyLen: 32, Turns: 1, Foreign: []int{1040}, Fams: c12Singles(1), Note: "singles-cancel"})
+	if thorough {
+		out = append(out, c12In{Route: "exch", Cold: true, Cancel: true, KeyLen: 33, Turns: 2, Foreign: []int{16, 32, 1064}, Fams: c12Singles(3), Note: "singles-cancel"},
+			c12In{Route: "prod", Cold: false, Cancel: true, KeyLen: 16, Turns: 0, Foreign: []int{20, 1016}, Fams: c12Singles(2), Note: "singles-cancel"})
+	}
 	if thorough {
 		out = append(out, c12In{Route: "prod", Cold: true, KeyLen: 64, Turns: 1, Foreign: []int{16, 32, 64}, Fams: c12Singles(3), Note: "singles"},
 			c12In{Route: "exch", Cold: false, KeyLen: 16, Turns: 1, Foreign: []int{17, 33, 63}, Fams: c12Singles(3), Note: "singles"})
@@ -771,6 +785,21 @@ func c12Gen(r *rand.Rand, n int, tier string) []c12In {
 	sweep("prod", true, 16, 0, all("flips", "call", c12CallA, c12CurA))
 	sweep("prod", true, 48, 0, all("truncs", "cursor", c12CurA, c12CallA), all("truncs", "call", c12CallA, c12CurA),
 		all("vers", "cursor", c12CurA, c12CallA), all("vers", "call", c12CallA, c12CurA))
+	// every forgery class of the call token (and of the cursor) under a CANCEL, cache disabled
+	cancelSweep := func(route string, keyLen, turns int, fams ...c12Fam) {
+		out = append(out, c12In{Route: route, Cold: true, Cancel: true, KeyLen: keyLen, Turns: turns, Fams: fams, Note: "sweep-cancel"})
+	}
+	if thorough {
+		cancelSweep("prod", 32, 0, all("flips", "call", c12CallA, c12CurA), all("truncs", "call", c12CallA, c12CurA), all("vers", "call", c12CallA, c12CurA),
+			all("rawflips", "call", c12CallA, c12CurA), c12Fam{F: "chars", S: "call", R: c12CallA, P: c12CurA, Lo: -100})
+		cancelSweep("exch", 50, 1, all("flips", "cursor", c12CurA, c12CallA), all("truncs", "cursor", c12CurA, c12CallA), all("vers", "cursor", c12CurA, c12CallA),
+			all("flips", "call", c12CallA, c12CurA))
+	} else {
+		cancelSweep("prod", 32, 0, c12Fam{F: "flips", S: "call", R: c12CallA, P: c12CurA, Lo: 0, Hi: 40}, c12Fam{F: "flips", S: "call", R: c12CallA, P: c12CurA, Lo: -26, Hi: -1},
+			all("truncs", "call", c12CallA, c12CurA), all("vers", "call", c12CallA, c12CurA), c12Fam{F: "chars", S: "call", R: c12CallA, P: c12CurA, Lo: -100},
+			c12Fam{F: "rawflips", S: "call", R: c12CallA, P: c12CurA, Lo: 0, Hi: 30}, c12Fam{F: "rawflips", S: "call", R: c12CallA, P: c12CurA, Lo: -17, Hi: -1},
+			c12Fam{F: "flips", S: "cursor", R: c12CurA, P: c12CallA, Lo: 0, Hi: 12}, c12Fam{F: "truncs", S: "cursor", R: c12CurA, P: c12CallA, Lo: -12, Hi: -1})
+	}
 	if thorough {
 		sweep("exch", true, 64, 1, all("rawflips", "cursor", c12CurA, c12CallA))
 		sweep("exch", true, 17, 1, all("rawflips", "call", c12CallA, c12CurA))
@@ -812,7 +841,7 @@ func c12Gen(r *rand.Rand, n int, tier string) []c12In {
 	}
 	// 3. random: key lengths 16..64, random foreign keys, multi-byte mutations, splices
 	for len(out) < n {
-		in := c12In{Route: []string{"prod", "exch"}[r.Intn(2)], Cold: r.Intn(3) > 0, KeyLen: 16 + r.Intn(49), Turns: r.Intn(4), Note: "random"}
+		in := c12In{Route: []string{"prod", "exch"}[r.Intn(2)], Cold: r.Intn(3) > 0, KeyLen: 16 + r.Intn(49), Turns: r.Intn(4), Cancel: r.Intn(3) == 0, Note: "random"}
 		nf := 1 + r.Intn(3)
 		for j := 0; j < nf; j++ {
 			in.Foreign = append(in.Foreign, 16+r.Intn(49)+1000*r.Intn(2))
@@ -888,6 +917,6 @@ func c12Gen(r *rand.Rand, n int, tier string) []c12In {
 }
 
 func init() {
-	Register("C12", "boundary first: every single presentation kind (verbatim, replayed, missing / empty slot, swapped slots, another call's token, another method's, a second server with the same normalised key, foreign keys of length 16/32/64, expired, key-holder-only payloads, non-base64, too short, url-safe alphabet, padding stripped / added, CR LF space tab NUL inserted / appended, raw envelope truncated / extended) on both routes with the call-state cache enabled and disabled; then exhaustive sweeps on real tokens over HTTP with the cache disabled: EVERY single-bit flip of the cursor text and of the call-token text, EVERY truncation of both, all 256 version bytes of both, every bit of both raw envelopes (canonical re-encoding), all 256 values of each of the last four characters and of the first (slack bits) for raw lengths of every residue mod 3; sweeps with the cache enabled (the call token is not consulted on a hit); then random cases (key length 16..64, 1-3 foreign servers, random multi-byte mutations, splices, garbage of token-like length). non-trivial = at least one presentation accepted and one refused; distinct = distinct input JSON",
+	Register("C12", "boundary first: every single presentation kind (verbatim, replayed, missing / empty slot, swapped slots, another call's token, another method's, a second server with the same normalised key, foreign keys of length 16/32/64, expired, key-holder-only payloads, non-base64, too short, url-safe alphabet, padding stripped / added, CR LF space tab NUL inserted / appended, raw envelope truncated / extended) on both routes with the call-state cache enabled and disabled, each also as a CANCEL continuation (cancel key set; states implement StreamCanceller so OnCancel is observed); then exhaustive sweeps on real tokens over HTTP with the cache disabled: EVERY single-bit flip of the cursor text and of the call-token text, EVERY truncation of both, all 256 version bytes of both, every bit of both raw envelopes (canonical re-encoding), all 256 values of each of the last four characters and of the first (slack bits) for raw lengths of every residue mod 3; sweeps with the cache enabled (the call token is not consulted on a hit); the call-token sweeps (bit flips, every truncation, all version bytes, raw-envelope flips, slack-bit character) again under CANCEL with the cache disabled; then random cases (one in three a CANCEL case; key length 16..64, 1-3 foreign servers, random multi-byte mutations, splices, garbage of token-like length). non-trivial = at least one presentation accepted and one refused; distinct = distinct input JSON",
 		c12Gen, c12Run)
 }
